@@ -1,7 +1,9 @@
 // C16 — overlay worlds shadow the base consistently.
 //
 // Engine E1: all ordered pairs (base, upper) of worlds drawn from the worldkit
-// feature menu (extended by a moved and re-tagged version of the first point),
+// feature menu (extended by a moved and re-tagged version of the first point;
+// upper worlds also by versions of the first point at boundary locations: the
+// origin, the equator, the prime meridian, the poles, the antimeridian),
 // so the two layers have disjoint, overlapping, nested and equal ID sets and
 // the same ID carries different tags, geometry, members or even a different
 // way of being defined (path by references / by lat-lngs, area by path / by
@@ -46,7 +48,54 @@ func slots() []wk.Slot {
 	m[0].Variants = append(m[0].Variants, wk.Variant{Name: "moved-retagged", F: func(s wk.IDScheme) *wk.FSpec {
 		return &wk.FSpec{ID: s.P(0), Kind: wk.KPoint, LL: wk.G(-1, -1), Tags: []wk.TagSpec{{Key: "#amenity", Value: "pub"}, {Key: "name", Value: "moved"}}}
 	}})
+	// boundary locations (variants 4..10): the same ID and the tags of "tagged", at the origin, on the
+	// equator, on the prime meridian, at the poles and on the antimeridian
+	for _, b := range boundaryLocations {
+		b := b
+		m[0].Variants = append(m[0].Variants, wk.Variant{Name: "at-" + b.name, F: func(s wk.IDScheme) *wk.FSpec {
+			return &wk.FSpec{ID: s.P(0), Kind: wk.KPoint, LL: b.ll, Tags: []wk.TagSpec{{Key: "#amenity", Value: "cafe"}}}
+		}})
+	}
 	return m
+}
+
+const firstBoundary = 4 // index of the first boundary variant of point1
+
+var boundaryLocations = []struct {
+	name string
+	ll   wk.LL
+}{
+	{"origin(0,0)", wk.LL{Lat: 0, Lng: 0}},
+	{"equator(0,x)", wk.LL{Lat: 0, Lng: wk.G(0, 0).Lng}},
+	{"prime-meridian(x,0)", wk.LL{Lat: wk.G(0, 0).Lat, Lng: 0}},
+	{"north-pole(90,0)", wk.LL{Lat: 900000000, Lng: 0}},
+	{"antimeridian(x,180)", wk.LL{Lat: wk.G(0, 0).Lat, Lng: 1800000000}},
+	// thorough only
+	{"south-pole(-90,0)", wk.LL{Lat: -900000000, Lng: 0}},
+	{"antimeridian(x,-180)", wk.LL{Lat: wk.G(0, 0).Lat, Lng: -1800000000}},
+}
+
+// boundary variants of point1 used by a tier
+func boundaryVariants(tier string) []int {
+	n := 5
+	if tier == "thorough" {
+		n = len(boundaryLocations)
+	}
+	out := make([]int, n)
+	for i := range out {
+		out[i] = firstBoundary + i
+	}
+	return out
+}
+
+// allowedBoundary: the additional UPPER worlds of the S/M pairs: point1 at a
+// boundary location, alone, or with point2 (and points 3+4) under pathA
+// (closed by references / mixed / open by references) and under area1 by pathA.
+func allowedBoundary(tier string) [][]int {
+	if tier == "thorough" {
+		return [][]int{boundaryVariants(tier), {0}, {0, 1}, {5, 0, 1, 3}, {0}, {0, 1, 4}, {0}, {0}}
+	}
+	return [][]int{boundaryVariants(tier), {0}, {0, 1}, {5, 0, 3}, {0}, {0, 1}, {0}, {0}}
 }
 
 // allowed variant indices per slot (worldkit.FeatureMenu order):
@@ -657,10 +706,19 @@ func build(tier string) (kit.Space, string) {
 				sw.valid = append(sw.valid, i)
 			}
 		}
+		// upper worlds only: point1 at the boundary locations
+		menu := len(sw.all)
+		sw.all = append(sw.all, enumerate(sl, allowedBoundary(p.tier), p.sch)...)
+		nb := 0
+		for _, w := range sw.all[menu:] {
+			if w.valid {
+				nb++
+			}
+		}
 		sws = append(sws, sw)
 		offs = append(offs, total)
 		total += int64(len(sw.valid))
-		bounds = append(bounds, fmt.Sprintf("scheme %s: %d base worlds (menu choices valid by themselves) x %v (S: the same %d worlds as upper; M: all %d menu choices as upper, in scope when every addition keeps the union valid)", p.sch.Name, len(sw.valid), p.kinds, len(sw.valid), len(sw.all)))
+		bounds = append(bounds, fmt.Sprintf("scheme %s: %d base worlds (menu choices valid by themselves) x %v (S: the same %d worlds as upper; M: all %d menu choices as upper, in scope when every addition keeps the union valid; both: + %d upper worlds (%d valid by themselves) with point1 at %d boundary locations, alone / under pathA / under area1 by pathA)", p.sch.Name, len(sw.valid), p.kinds, len(sw.valid), menu, len(sw.all)-menu, nb, len(boundaryVariants(p.tier))))
 	}
 	qs := queries()
 	b6qs := make([]b6.Query, len(qs))
@@ -677,7 +735,7 @@ func build(tier string) (kit.Space, string) {
 		if p.h2 == "" {
 			continue
 		}
-		versions[p.sch.Name] = featureVersions(sl, p.sch)
+		versions[p.sch.Name] = featureVersions(sl, p.sch, p.tier)
 		sw := &schemeWorlds{sch: p.sch, all: enumerate(sl, allowedH(p.h2), p.sch), static: map[int]b6.World{}, infos: map[int]*winfo{}}
 		deep := map[int]bool{}
 		for _, d := range enumerate(sl, allowedH(p.h3), p.sch) {
@@ -714,7 +772,7 @@ func build(tier string) (kit.Space, string) {
 		}
 	}
 	total += int64(len(hcases))
-	bound := strings.Join(bounds, "; ") + fmt.Sprintf("; H alphabet: AddFeature of %d menu versions of the 9 menu IDs (re-add / replace / add, in scope when the whole world stays valid), and per held feature AddTag(name=h), RemoveTag(first plain key held), AddTag(#amenity=cafe), RemoveTag(first #/@ key held); %d tag queries, %d looked-up IDs", len(featureVersions(sl, osm)), len(qs), len(wk.Universe(osm)))
+	bound := strings.Join(bounds, "; ") + fmt.Sprintf("; H alphabet: AddFeature of %d menu versions of the 9 menu IDs (re-add / replace / add, in scope when the whole world stays valid), and per held feature AddTag(name=h), RemoveTag(first plain key held), AddTag(#amenity=cafe), RemoveTag(first #/@ key held); %d tag queries, %d looked-up IDs", len(featureVersions(sl, osm, tier)), len(qs), len(wk.Universe(osm)))
 	return kit.FuncSpace{N: total, F: func(i int64) kit.Result {
 		if i >= pairs {
 			c := hcases[i-pairs]
@@ -799,13 +857,14 @@ func build(tier string) (kit.Space, string) {
 func main() {
 	kit.Main(&kit.Check{
 		ID: "C16", Level: "exploration",
-		Rule: "case = (ID scheme, base world); inside, every upper world of the same menu under both layerings (S static overlay of two basic worlds, M mutable overlay with the upper features added). Worlds = choices of one variant per slot of worldkit.FeatureMenu (+ a moved, re-tagged first point). " +
+		Rule: "case = (ID scheme, base world); inside, every upper world of the same menu under both layerings (S static overlay of two basic worlds, M mutable overlay with the upper features added). Worlds = choices of one variant per slot of worldkit.FeatureMenu (+ a moved, re-tagged first point). Upper worlds additionally: the first point at BOUNDARY LOCATIONS (origin 0,0; equator 0,x; prime meridian x,0; north pole 90,0; antimeridian x,180; thorough also south pole and x,-180), alone and with the other points under pathA (closed by references / mixed; thorough also open) and under area1 by pathA, over every base (so only in the upper layer, or shadowing a base point at a grid location); the same versions of the first point are in the AddFeature alphabet of the histories. " +
 			"Then kind H (history.go): case = (ID scheme, base world[, first operation]); inside, every history of 1..2 (1..3 on the chain bases) operations on a MutableOverlayWorld over the base from the alphabet recomputed in the reference world after every step: AddFeature of a menu version of a menu ID (re-add of the held version / replacement by another version / addition of a missing ID; point, path, area, relation; in scope when the whole world stays valid), and for every held feature AddTag(name=h) [plain], RemoveTag(first plain key held), AddTag(#amenity=cafe) [searchable], RemoveTag(first #/@ key held); the world after the history is judged against the reference Spec after the same edits, upper layer = the IDs AddFeature was called with. Pairs first, then histories by depth and base size. " +
 			"Non-trivial pair = some ID present in both layers with different versions; non-trivial history = it changes the reference world. Oracle: reference world of (base minus upper IDs) + upper: has / feature (tags with kinds, members, point references; resolved geometry unless a base-only path or area depends on an ID the upper layer replaces) / location for 14 present and absent IDs, FindFeatures for the tag-query menu as the ID-ordered list of the union's versions, EachFeature as the multiset of the union's versions (H: also the multiset of the enumerated features' resolved geometry where it is judged).",
 		Assumptions: []string{
 			"resolved coordinates of a base-only path/area whose points/paths are replaced in the upper layer are not compared (the statement's two sentences disagree there); its tags, references and members are",
 			"M: only upper layers whose every AddFeature (dependency order) keeps the union valid (worldkit.ValidSubset); rejected valid additions are counted, not alarmed (C13's subject)",
 			"references and traversal are outside the statement (lookup, search, enumeration, locations)",
+			"boundary locations: every world accepts points at the origin, on the equator, on the prime meridian, at the poles (longitude 0) and at longitude +-180, also under open and mixed paths; the closed pathA through the first point on the prime meridian, on the antimeridian or at the north pole runs clockwise, which strict builds and AddFeature validation reject, so those worlds are out of scope (the loops through the origin, the equator and the south pole are accepted and judged, also as area1)",
 			"H: a feature the history only re-tagged, or that was copied into the upper layer because something it references was replaced, counts as base-only for the geometry rule above; an edit the reference accepts but the world rejects is counted, not alarmed (C12/C13's subject), and its history is not judged",
 		},
 		QuickDeadline:    600e9,
